@@ -205,6 +205,10 @@ class AutoQKHyperModel(HyperModel):
     if not i_list:
       i_list = []
 
+    # the tensor role is the suffix the caller appended to the layer name;
+    # the layer name itself may contain words such as "kernel" or "bias"
+    role = head[len(layer_name):] if head.startswith(layer_name) else head
+
     if is_linear:
       # linear quantizers
       field_name = "linear"
@@ -212,35 +216,35 @@ class AutoQKHyperModel(HyperModel):
       index = 0
       q_list = list(kq.keys())
       q_dict = kq
-    elif "kernel" in head:
+    elif "kernel" in role:
       # kernel quantizers
       field_name = "kernel"
       kq = self.quantization_config["kernel"]
       index = 0
       q_list = list(kq.keys())
       q_dict = kq
-    elif "bias" in head:
+    elif "bias" in role:
       # bias quantizers
       field_name = "bias"
       bq = self.quantization_config["bias"]
       index = 1
       q_list = list(bq.keys())
       q_dict = bq
-    elif "pointwise_kernel" in head: # limit is same as kernel
+    elif "pointwise_kernel" in role: # limit is same as kernel
       # pointwise kernel quantizers
       field_name = "pointwise_kernel"
       kq = self.quantization_config["pointwise_kernel"]
       index = 2
       q_list = list(kq.keys())
       q_dict = kq
-    elif "recurrent_kernel" in head: # limit is same as kernel
+    elif "recurrent_kernel" in role: # limit is same as kernel
       # recurrent kernel quantizers
       field_name = "recurrent_kernel"
       kq = self.quantization_config["recurrent_kernel"]
       index = 2
       q_list = list(kq.keys())
       q_dict = kq
-    elif "recurrent_activation" in head: # limit is same as kernel
+    elif "recurrent_activation" in role: # limit is same as kernel
       # recurrent activation quantizers
       field_name = "recurrent_activation"
       raq = self.quantization_config["recurrent_activation"]
